@@ -5,7 +5,10 @@ C26 — sticky sessions are never used concurrently with or after close: theorem
 (`Model/C26.lean`, the repaired `_sticky.py`), for EVERY interleaving, any number of threads and sessions.
 
 * `C26_shape`                      the extracted source has the locking discipline the model transliterates
-* `C26_inv`                        the lock / registry / counter invariants hold in every reachable state
+* `C26_inv`                        the lock / registry / counter invariants hold in every reachable state (in particular
+                                   `NoU`: nobody is ever inside `_close_entry` without the entry lock — the model's
+                                   `entTimeout` step, a timed acquire that fails, is disabled because the extracted
+                                   discipline is a blocking acquire: `timeoutDisabled` in `Lemmas/C26Trans.lean`)
 * `C26_mutex`                      (1) at most one request dispatches against a session at a time
 * `C26_close_once`                 (2a) the close hook of a session starts at most once
 * `C26_close_exactly_once`         (2b) at rest, every ended session was closed exactly once (started and finished)
@@ -26,19 +29,21 @@ theorem C26_shape :
     regLockIsPlainLock = true ∧ entryLockIsRLock = true ∧ openOrder = true ∧ getShape = true ∧ isLiveShape = true ∧
     closeShape = true ∧ drainShape = true ∧ shutdownShape = true ∧ closeEntryShape = true ∧
     noDirectStateClose = true ∧ requestRechecksLive = true ∧ closeSessionKeepsEntryLock = true ∧
-    responseReleasesEntryLock = true ∧ deleteClosesUnderEntryLock = true ∧ reaperLoopShape = true := by decide
+    responseReleasesEntryLock = true ∧ deleteClosesUnderEntryLock = true ∧ reaperLoopShape = true ∧
+    closeLockWaitMillis = none := by decide
 
 /-! ### the invariant -/
 
 structure Inv (st : St) : Prop where
+  nou : NoU st
   lock : LockInv st
   main : MainInv st
 
-theorem inv_init : Inv ts.init := ⟨lockInv_init, mainInv_init⟩
+theorem inv_init : Inv ts.init := ⟨noU_init, lockInv_init, mainInv_init⟩
 
 theorem inv_step {st st' : St} {l : Label} (h : Inv st) (hst : ts.step st l = some st') : Inv st' :=
   have htr := step_trans hst
-  ⟨lockInv_trans h.lock htr, mainInv_trans h.lock h.main htr⟩
+  ⟨noU_trans h.nou htr, lockInv_trans h.nou h.lock htr, mainInv_trans h.nou h.lock h.main htr⟩
 
 /-- the invariants hold in every reachable state -/
 theorem C26_inv {st : St} (h : ts.Reachable st) : Inv st :=
@@ -113,7 +118,7 @@ theorem cstart_mono {st st' : St} {l : Label} (hst : ts.step st l = some st') (s
   have htr : Trans st l st' := step_trans hst
   cases htr with
   | regAcq _ hop => simp only; rw [hop.frame.2.2.2.2.2.2.2.1]; exact Nat.le_refl _
-  | @closeStart t s' c hp =>
+  | @closeStart t s' c hp | @closeStartU t s' c hp =>
     simp only
     by_cases hs : s = s'
     · subst hs; simp
@@ -146,7 +151,7 @@ theorem obs_step {st st' : St} {l : Label} (hst : ts.step st l = some st') :
     obtain ⟨-, -, -, -, -, e1, e2, e3, e4, -⟩ := hop.frame
     simp only [obsOf, Label.ev, e1, e2, e3, e4]
   | dispatchBegin hp | dispatchEnd hp => rfl
-  | closeStart hp | closeEnd hp => rfl
+  | closeStart hp | closeEnd hp | closeStartU hp | closeEndU hp => rfl
   | _ => rfl
 
 theorem obs_runFrom {st st' : St} {ls : List Label} (h : ts.runFrom st ls = some st') :
@@ -284,7 +289,7 @@ theorem owner_of_holds {st : St} (hi : Inv st) {u : Tid} {s : Sid} (hh : 0 < (st
 
 theorem canStep_regRel {st : St} (hi : Inv st) {u : Tid} {n : Pc} (hp : st.pc u = .inReg n) : CanStep st u := by
   have ho : st.reg.owner = some u := ((hi.lock.reg u).1).2 (by simp [hp, Pc.depth])
-  exact ⟨.regRel u, rfl, by simp [step, hp, Lock.release, ho]⟩
+  exact ⟨.regRel u, rfl, by simp [step, stepD, hp, Lock.release, ho]⟩
 
 theorem canStep_entRel {st : St} (hi : Inv st) {u : Tid} {s : Sid} (hh : 0 < (st.pc u).holds s)
     (hp : (∃ c, st.pc u = .cRel s c) ∨ st.pc u = .lostRel s ∨ st.pc u = .finRel s ∨ st.pc u = .delRel s) :
@@ -294,7 +299,7 @@ theorem canStep_entRel {st : St} (hi : Inv st) {u : Tid} {s : Sid} (hh : 0 < (st
   have hr : ∃ l, (st.ent s).release u = some l := by
     unfold RLock.release; rw [if_pos ho]; split <;> exact ⟨_, rfl⟩
   obtain ⟨l, hl⟩ := hr
-  rcases hp with ⟨c, hp⟩ | hp | hp | hp <;> simp [step, hl, hp]
+  rcases hp with ⟨c, hp⟩ | hp | hp | hp <;> simp [step, stepD, hl, hp]
 
 /-- a thread about to take the registry lock: it, or the holder of that lock, can step -/
 theorem progress_reg {st : St} (hi : Inv st) {t : Tid} (hne : st.pc t ≠ .idle)
@@ -304,7 +309,7 @@ theorem progress_reg {st : St} (hi : Inv st) {t : Tid} (hne : st.pc t ≠ .idle)
     refine ⟨t, hne, .regAcq t, rfl, ?_⟩
     cases hr : regOp st (st.pc t) with
     | none => rw [hr] at hop; cases hop
-    | some x => obtain ⟨st1, n⟩ := x; simp [step, Lock.acquire, ho, hr]
+    | some x => obtain ⟨st1, n⟩ := x; simp [step, stepD, Lock.acquire, ho, hr]
   | some u =>
     have hd := ((hi.lock.reg u).1).1 ho
     cases hp : st.pc u with
@@ -324,11 +329,11 @@ theorem progress_nonwaiting {st : St} (hi : Inv st) {u : Tid} (hne : st.pc u ≠
   cases hp : st.pc u with
   | idle => exact absurd hp hne
   | inReg n => exact ⟨u, hne, canStep_regRel hi hp⟩
-  | getClock k s => exact ⟨u, hne, .readClock u st.clock, rfl, by simp [step, hp]⟩
+  | getClock k s => exact ⟨u, hne, .readClock u st.clock, rfl, by simp [step, stepD, hp]⟩
   | getAcq k s now =>
     refine progress_reg hi hne ?_
     rw [hp]; simp only [regOp]; (repeat' split) <;> rfl
-  | lostPending => exact ⟨u, hne, .lost u, rfl, by simp [step, hp]⟩
+  | lostPending => exact ⟨u, hne, .lost u, rfl, by simp [step, stepD, hp]⟩
   | cAcq s c =>
     have hc : c.holds = true := by
       rw [hp] at hw; simp only [Pc.waitsEnt] at hw
@@ -339,27 +344,29 @@ theorem progress_nonwaiting {st : St} (hi : Inv st) {u : Tid} (hne : st.pc u ≠
     refine ⟨u, hne, .entAcq u s, rfl, ?_⟩
     have ha : (st.ent s).acquire u = some ⟨some u, (st.ent s).count + 1⟩ := by
       simp [RLock.acquire, ho]
-    simp only [step, ha, hp, if_true]
+    simp only [step, stepD, ha, hp, if_true]
     split <;> rfl
-  | cOpen s c => exact ⟨u, hne, .closeStart u s, rfl, by simp [step, hp]⟩
-  | cRun s c => exact ⟨u, hne, .closeEnd u s, rfl, by simp [step, hp]⟩
+  | cOpen s c => exact ⟨u, hne, .closeStart u s, rfl, by simp [step, stepD, hp]⟩
+  | cRun s c => exact ⟨u, hne, .closeEnd u s, rfl, by simp [step, stepD, hp]⟩
+  | uOpen s c => exact ⟨u, hne, .closeStart u s, rfl, by simp [step, stepD, hp]⟩
+  | uRun s c => exact ⟨u, hne, .closeEnd u s, rfl, by simp [step, stepD, hp]⟩
   | cRel s c => exact ⟨u, hne, canStep_entRel hi (s := s) (by simp only [hp, Pc.holds, if_true]; split <;> omega) (Or.inl ⟨c, hp⟩)⟩
   | eAcq k s => rw [hp] at hw; simp [Pc.waitsEnt] at hw
   | liveAcq s => exact progress_reg hi hne (by rw [hp]; rfl)
   | lostRel s => exact ⟨u, hne, canStep_entRel hi (s := s) (by simp [hp, Pc.holds]) (Or.inr (Or.inl hp))⟩
-  | ready s => exact ⟨u, hne, .dispatchBegin u s, rfl, by simp [step, hp]⟩
-  | disp s => exact ⟨u, hne, .mstep u, rfl, by simp [step, hp]⟩
+  | ready s => exact ⟨u, hne, .dispatchBegin u s, rfl, by simp [step, stepD, hp]⟩
+  | disp s => exact ⟨u, hne, .mstep u, rfl, by simp [step, stepD, hp]⟩
   | csAcq s c => exact progress_reg hi hne (by rw [hp]; simp only [regOp]; split <;> rfl)
   | finRel s => exact ⟨u, hne, canStep_entRel hi (s := s) (by simp [hp, Pc.holds]) (Or.inr (Or.inr (Or.inl hp)))⟩
   | delAcq s => exact progress_reg hi hne (by rw [hp]; simp only [regOp]; split <;> rfl)
   | delRel s => exact ⟨u, hne, canStep_entRel hi (s := s) (by simp [hp, Pc.holds]) (Or.inr (Or.inr (Or.inr hp)))⟩
   | sweepAcq now => exact progress_reg hi hne (by rw [hp]; rfl)
   | shutAcq => exact progress_reg hi hne (by rw [hp]; rfl)
-  | openClock ttl pm => exact ⟨u, hne, .readClock u st.clock, rfl, by simp [step, hp]⟩
-  | openAlloc exp pm => exact ⟨u, hne, .allocSid u st.nextSid, rfl, by simp [step, hp]⟩
+  | openClock ttl pm => exact ⟨u, hne, .readClock u st.clock, rfl, by simp [step, stepD, hp]⟩
+  | openAlloc exp pm => exact ⟨u, hne, .allocSid u st.nextSid, rfl, by simp [step, stepD, hp]⟩
   | openAcq s exp pm => exact progress_reg hi hne (by rw [hp]; rfl)
-  | openSeal s => exact ⟨u, hne, .readClock u st.clock, rfl, by simp [step, hp]⟩
-  | opened s => exact ⟨u, hne, .openDone u, rfl, by simp [step, hp]⟩
+  | openSeal s => exact ⟨u, hne, .readClock u st.clock, rfl, by simp [step, stepD, hp]⟩
+  | opened s => exact ⟨u, hne, .openDone u, rfl, by simp [step, stepD, hp]⟩
 
 /-- a thread that holds an entry lock is never waiting for another entry lock -/
 theorem waitsEnt_of_holds {p : Pc} {s : Sid} (hh : 0 < p.holds s) : p.waitsEnt = none := by
@@ -391,10 +398,10 @@ theorem C26_deadlock_free {st : St} (h : ts.Reachable st) {t : Tid} (hne : st.pc
           split at hw
           · cases hw
           · simp only [Option.some.injEq] at hw; subst hw
-            simp only [step, hacq, hp, if_true]; split <;> rfl
+            simp only [step, stepD, hacq, hp, if_true]; split <;> rfl
         | eAcq k s' =>
           rw [hp] at hw; simp only [Pc.waitsEnt, Option.some.injEq] at hw; subst hw
-          simp [step, hacq, hp]
+          simp [step, stepD, hacq, hp]
         | _ => rw [hp] at hw; simp [Pc.waitsEnt] at hw
       | none =>
         -- the lock is held by another thread u, which is not waiting for an entry lock
